@@ -32,7 +32,9 @@ def main():
     # worktree itself may have been disturbed by a concurrent seeder): reset and re-apply it
     patch = os.path.join(out, "patch.diff")
     shutil.copy(patch, os.path.join(dest, "patch.diff"))
+    run(["git", "reset", "-q"], wt)
     run(["git", "checkout", "--", "."], wt)
+    run(["git", "clean", "-fdq"], wt)  # files a patch adds (ignored files such as testdata/tmp stay)
     rc, o = run(["git", "apply", patch], wt)
     if rc != 0:
         print("patch does not apply:", o); return 2
@@ -53,7 +55,7 @@ def main():
     try:
         rc, o = run(["go", "test", "-vet=off", "-count=1", "-run", "TestSeededDemo", "."], wt)
         ran["demo_with_change"] = "fails" if rc != 0 else "PASSES (unexpected)"
-        run(["git", "checkout", "--", "."], wt)  # tracked files back to HEAD; the demo file is untracked
+        run(["git", "apply", "-R", patch], wt)  # back to HEAD (also removes files the patch adds); the demo file stays
         try:
             rc, o = run(["go", "test", "-vet=off", "-count=1", "-run", "TestSeededDemo", "."], wt)
             ran["demo_without_change"] = "passes" if rc == 0 else "FAILS (unexpected): " + o[-300:]
